@@ -172,7 +172,11 @@ class Checker:
         w = units[wi % len(units)]
         cats = self.cats.get(qt, [])
         for ci, c in enumerate(cats):
-            for name, fn in self.entries(l, u, qt, c, w, x, y):
+            E = self.entries(l, u, qt, c, w, x, y)
+            if (len(l) + wi) % 2:
+                # every other time the rejected (cross-type) uses of the spelling come before its valid uses
+                E = [e for e in E if e[0].startswith("cross-type")] + [e for e in E if not e[0].startswith("cross-type")]
+            for name, fn in E:
                 if ci > 0 and "category" not in name and ",c" not in name and "(c," not in name:
                     continue  # entries that do not take the category are evaluated once
                 case = {"kind": "entry", "legacy": l, "current": u, "entry": name, "c": c, "w": w, "x": x, "y": y}
